@@ -8,7 +8,7 @@
 (* (DESIGN.md 1.3):                                                        *)
 (*                                                                         *)
 (*   CodeView      the actions Insert / Probe / NewSearch / Reset / Resize *)
-(*                 / Fill below: what the code does, line by line:         *)
+(*                 / Fill / New below: what the code does, line by line:   *)
 (*                 slot = key mod entries, one entry per slot, the four-   *)
 (*                 line replacement rule on the stored 8-bit age           *)
 (*                 (age = search mod GenMod), `occupied` counted on the    *)
@@ -30,7 +30,8 @@ CONSTANTS
     N(_),          \* size setting (megabytes in the code) -> number of slots
     SlotOf(_, _),  \* (key, number of slots > 0) -> slot index;  key mod n in the code
     GenMod,        \* number of distinct stored ages: 256 in the code (u8)
-    Checked        \* TRUE: checked build (arithmetic overflow panics); FALSE: optimised build (wraps)
+    Checked        \* TRUE: `generation += 1` panics on overflow (checked build of the code as written);
+                   \* FALSE: it wraps (optimised build)
 
 VARIABLES
     slot,      \* [tracked slot indices -> None or entry]
@@ -67,6 +68,11 @@ Gen == search % GenMod            \* the code's `generation` (CodeView)
 (***************************************************************************)
 (* PropertyView                                                            *)
 (***************************************************************************)
+\* The stored age is the table's own bookkeeping: the property never mentions it.
+Pv(e)  == [e EXCEPT !.age = 0]
+PvD(d) == [d EXCEPT !.age = 0]
+SameContent(f, g) == DOMAIN f = DOMAIN g /\ \A s \in DOMAIN f : Pv(f[s]) = Pv(g[s])
+
 \* "entries from earlier searches always give way" (and an empty slot takes anything)
 MustAdmit(old, new) == old = None \/ old.search < new.search
 \* "within one search an exact result is displaced only by another exact result or a deeper one"
@@ -77,7 +83,10 @@ Allowed(old, new) == IF MustAdmit(old, new) THEN {new}
                      ELSE IF MustKeep(old, new) THEN {old}
                      ELSE {old, new}
 
-\* what a probe for k must return when the table content is f
+\* what a probe for k returns when the table content is f: "data only if it was stored under exactly
+\* the same key", and then "the latest entry the replacement policy admitted for that slot".  (Read as
+\* an equality: a probe for the key the slot holds does return it - otherwise "give way" and "displaced"
+\* would say nothing observable.)
 ProbeOf(f, k, n) == IF n = 0 THEN NoData
                     ELSE LET e == f[SlotOf(k, n)] IN IF e # None /\ e.key = k THEN Data(e) ELSE NoData
 
@@ -86,37 +95,46 @@ TruePermille(f, b, n) == (1000 * (Filled(f) + b)) \div n
 PermilleOK(p, f, b, n) == n = 0 \/ (p >= TruePermille(f, b, n) - 1 /\ p <= TruePermille(f, b, n) + 1)
 
 \* PropertyView of one step, as a predicate on a pair of states; the step is identified by ret'.
+PVNew ==
+    /\ size' = ret'.n /\ slot' = Empty(ret'.n) /\ bulk' = 0
 PVInsert ==
     LET k == ret'.k
         n == N(size)
-    IN  /\ search' = search /\ size' = size
+    IN  /\ search' = search /\ size' = size /\ bulk' = bulk
         /\ IF n = 0 THEN slot' = slot
            ELSE LET s == SlotOf(k, n)
-                IN  /\ slot'[s] \in Allowed(slot[s], Entry(k, ret'.d, search))
-                    /\ \A t \in DOMAIN slot : t # s => slot'[t] = slot[t]
-PVProbe     == /\ slot' = slot /\ search' = search /\ size' = size
-               /\ ret'.res = ProbeOf(slot, ret'.k, N(size))
-PVNewSearch == slot' = slot /\ size' = size /\ search' > search
+                IN  /\ DOMAIN slot' = DOMAIN slot
+                    /\ Pv(slot'[s]) \in {Pv(a) : a \in Allowed(slot[s], Entry(k, ret'.d, search))}
+                    /\ \A t \in DOMAIN slot : t # s => Pv(slot'[t]) = Pv(slot[t])
+PVProbe ==
+    /\ SameContent(slot', slot) /\ search' = search /\ size' = size /\ bulk' = bulk
+    /\ PvD(ret'.res) = PvD(ProbeOf(slot, ret'.k, N(size)))
+PVNewSearch == SameContent(slot', slot) /\ size' = size /\ bulk' = bulk /\ search' = search + ret'.times
 PVReset     == slot' = Empty(size) /\ size' = size /\ bulk' = 0
 PVResize    == /\ size' = ret'.n
                /\ IF ret'.n # size THEN slot' = Empty(ret'.n) /\ bulk' = 0
-                  ELSE slot' \in {slot, Empty(size)}       \* "resize" means the size changes (DESIGN 7)
-PVFill      == slot' = slot /\ search' = search /\ size' = size /\ bulk' = bulk + ret'.cnt
+                  \* "resize" means the size changes (DESIGN 7): otherwise the property is silent
+                  ELSE \/ SameContent(slot', slot) /\ bulk' = bulk
+                       \/ slot' = Empty(size) /\ bulk' = 0
+PVFill      == SameContent(slot', slot) /\ search' = search /\ size' = size /\ bulk' = bulk + ret'.cnt
 
 \* "keeps working for every advertised size and for any number of searches"
 PVNoCrash == st' = "ok"
 
-PVStep ==
-    /\ PVNoCrash
-    /\ CASE ret'.op = "insert"    -> PVInsert
-         [] ret'.op = "probe"     -> PVProbe
-         [] ret'.op = "newsearch" -> PVNewSearch
-         [] ret'.op = "reset"     -> PVReset
-         [] ret'.op = "resize"    -> PVResize
-         [] ret'.op = "fill"      -> PVFill
-         [] OTHER -> FALSE
+PVData ==
+    CASE ret'.op = "new"       -> PVNew
+      [] ret'.op = "insert"    -> PVInsert
+      [] ret'.op = "probe"     -> PVProbe
+      [] ret'.op = "newsearch" -> PVNewSearch
+      [] ret'.op = "reset"     -> PVReset
+      [] ret'.op = "resize"    -> PVResize
+      [] ret'.op = "fill"      -> PVFill
+      [] OTHER -> FALSE
 
-\* The whole PropertyView as a temporal formula over the variables above.
+PVStep == PVNoCrash /\ PVData
+
+\* The whole PropertyView as a temporal formula over the variables above (the fill indicator is the
+\* state predicate FillIndicator below).
 PropertyView == [][PVStep]_vars
 
 (***************************************************************************)
@@ -154,13 +172,16 @@ Probe(k) ==
        ELSE /\ ret' = [op |-> "probe", k |-> k, res |-> ProbeOf(slot, k, N(size))]
             /\ UNCHANGED <<slot, search, occupied, size, bulk, st>>
 
-\* new_generation: `self.generation += 1` on a u8
-NewSearch ==
+\* new_generation: `self.generation += 1` on a u8, t times in a row (the panic of the checked build
+\* happens in the call that would leave GenMod - 1)
+NewSearches(t) ==
     /\ Live
-    /\ IF Checked /\ Gen = GenMod - 1 THEN Crash([op |-> "newsearch"])
-       ELSE /\ search' = search + 1                         \* Gen' = (Gen + 1) mod GenMod
-            /\ ret' = [op |-> "newsearch"]
-            /\ UNCHANGED <<slot, occupied, size, bulk, st>>
+    /\ LET r == [op |-> "newsearch", times |-> t]
+       IN  IF Checked /\ Gen + t >= GenMod THEN Crash(r)
+           ELSE /\ search' = search + t                     \* Gen' = (Gen + t) mod GenMod
+                /\ ret' = r
+                /\ UNCHANGED <<slot, occupied, size, bulk, st>>
+NewSearch == NewSearches(1)
 
 Reset ==
     /\ Live
@@ -183,9 +204,25 @@ Fill(cnt) ==
     /\ ret' = [op |-> "fill", cnt |-> cnt]
     /\ UNCHANGED <<slot, search, size, st>>
 
+\* TranspositionTable::new(n)
+New(n) ==
+    /\ slot' = Empty(n) /\ search' = 0 /\ occupied' = 0 /\ size' = n /\ bulk' = 0 /\ st' = "ok"
+    /\ ret' = [op |-> "new", n |-> n]
+
 InitWith(sz) ==
     /\ slot = Empty(sz) /\ search = 0 /\ occupied = 0 /\ size = sz /\ bulk = 0 /\ st = "ok"
     /\ ret = [op |-> "new", n |-> sz]
+
+\* the CodeView action that belongs to an operation label
+CodeStep(r) ==
+    CASE r.op = "new"       -> New(r.n)
+      [] r.op = "insert"    -> Insert(r.k, r.d)
+      [] r.op = "probe"     -> Probe(r.k)
+      [] r.op = "newsearch" -> NewSearches(r.times)
+      [] r.op = "reset"     -> Reset
+      [] r.op = "resize"    -> Resize(r.n)
+      [] r.op = "fill"      -> Fill(r.cnt)
+      [] OTHER -> FALSE
 
 (***************************************************************************)
 (* State invariants connecting the layers                                  *)
